@@ -9,7 +9,9 @@ Composed system (Props/C10.v c10_no_cross_composed): the real client functions a
 also run TOGETHER over two FIFO links on random system schedules (accept / server iteration / deliver) with unique
 query and answer payloads; oracle on the real code alone: an answer received on the resolver socket that carried
 query X is never handed to an asker other than X's — unless the run violates the stated system hypothesis
-(no_stale_alloc), which the harness evaluates on the run itself; the stale-reuse witness is replayed."""
+(no_stale_alloc), which the harness evaluates on the run itself; the stale-reuse witness is replayed.
+The composition itself (coq/Model/DgramSys.v ystep) is extracted and compared with SystemRun step by step on the
+same schedules, DNS-only and DNS/UDP/TCP mixed (see c11.py)."""
 import os
 import sys
 
